@@ -578,18 +578,20 @@ theorem vec_ops_size [Div R] (t : Vec R) (x : Nat → R) (k a : R) :
     simp [vPlusAssign, vMinusAssign, vPlusAssignScalar, vMinusAssignScalar, vTimesAssign, vAxpy, vNeg, vPlus, vMinus, applyVia,
       Gen.vplusVia, Gen.vminusVia, elemSem_n]
 
-/-- FieldVector `v*k`, `k*v` -/
-theorem vec_scale_spec (x : Nat → R) (k : R) (i : Nat) :
-    vscale x k i = k * x i ∧ vscaleL k x i = k * x i := ⟨mul_comm _ _, rfl⟩
+/-- FieldVector `v*k`, `k*v`: the loops read from fvector.hh fill a fresh result of size `n` -/
+theorem vec_scale_spec [Div R] (n : Nat) (x : Nat → R) (k : R) (i : Nat) :
+    vscale n x k i = (if i < n then k * x i else 0) ∧ vscaleL n k x i = (if i < n then k * x i else 0) := by
+  constructor <;>
+    simp [vscale, vscaleL, ewSemVec_get, Gen.fvsig_times, Gen.fvsig_ltimes, ewVal, ewOpd, zeroVec, mul_comm]
 
 /-- division by a scalar, over a field: `(x /= k)ᵢ = xᵢ / k`, and it undoes the multiplication by `k ≠ 0` -/
 theorem vec_div_spec {F : Type*} [Field F] (t : Vec F) (x : Nat → F) (k : F) (i : Nat) :
     (vDivAssign t k).get i = (if i < t.n then t.get i / k else t.get i)
-    ∧ vdiv x k i = x i / k
+    ∧ vdiv t.n x k i = (if i < t.n then x i / k else 0)
     ∧ (k ≠ 0 → (vDivAssign (vTimesAssign t k) k).get i = t.get i) := by
   have h1 : ∀ (t : Vec F), (vDivAssign t k).get i = (if i < t.n then t.get i / k else t.get i) := by
     intro t; simp [vDivAssign, elemSem_get, Gen.vsig_divAssign, applyE, erhs]
-  refine ⟨h1 t, rfl, fun hk => ?_⟩
+  refine ⟨h1 t, by simp [vdiv, ewSemVec_get, Gen.fvsig_over, ewVal, ewOpd, zeroVec], fun hk => ?_⟩
   rw [h1, (vec_ops_size t x k k).2.2.2.2.1, (vec_ops_spec t x k k i).2.2.2.2.1]
   by_cases hi : i < t.n <;> simp [hi, hk]
 
@@ -603,25 +605,89 @@ theorem eq_ops_spec [DecidableEq R] (n : Nat) (x y : Nat → R) (A B : Mat R) :
   refine ⟨hv n x y, ?_⟩
   simp only [meq, allN_iff, hv]
 
-/-- matrices (densematrix.hh, row by row through the vector loops): `+=`, `-=`, `*= k`, `axpy`, unary `-`;
-FieldMatrix `A+B`, `A-B`, `A*k`, `k*A` -/
+/-- matrices (densematrix.hh, row by row through the vector loops): `+=`, `-=`, `*= k`, `axpy`; unary `-` (the nest read from
+densematrix.hh, run on a copy of the operand); FieldMatrix `A+B`, `A-B`, `A*k`, `k*A` (the nests read from fmatrix.hh, run on a
+fresh result: 0 outside the shape) -/
 theorem mat_ops_spec [Div R] (A B : Mat R) (k a : R) (i j : Nat) :
     (madd A B).e i j = (if j < A.cols then A.e i j + B.e i j else A.e i j)
     ∧ (msub A B).e i j = (if j < A.cols then A.e i j - B.e i j else A.e i j)
     ∧ (mscale A k).e i j = (if j < A.cols then k * A.e i j else A.e i j)
     ∧ (maxpy A a B).e i j = (if j < A.cols then A.e i j + a * B.e i j else A.e i j)
-    ∧ (mneg A).e i j = - A.e i j
-    ∧ (mplus A B).e i j = A.e i j + B.e i j ∧ (mminus A B).e i j = A.e i j - B.e i j
-    ∧ (mtimes A k).e i j = k * A.e i j ∧ (mltimes k A).e i j = k * A.e i j := by
-  refine ⟨?_, ?_, ?_, ?_, rfl, rfl, rfl, mul_comm _ _, rfl⟩
+    ∧ (mneg A).e i j = (if i < A.rows ∧ j < A.cols then - A.e i j else A.e i j)
+    ∧ (mplus A B).e i j = (if i < A.rows ∧ j < A.cols then A.e i j + B.e i j else 0)
+    ∧ (mminus A B).e i j = (if i < A.rows ∧ j < A.cols then A.e i j - B.e i j else 0)
+    ∧ (mtimes A k).e i j = (if i < A.rows ∧ j < A.cols then k * A.e i j else 0)
+    ∧ (mltimes k A).e i j = (if i < A.rows ∧ j < A.cols then k * A.e i j else 0) := by
+  refine ⟨?_, ?_, ?_, ?_, ?_, ?_, ?_, ?_, ?_⟩
   · exact (vec_ops_spec (A.row i) (B.e i) k a j).1
   · exact (vec_ops_spec (A.row i) (B.e i) k a j).2.1
   · exact (vec_ops_spec (A.row i) (B.e i) k a j).2.2.2.2.1
   · exact (vec_ops_spec (A.row i) (B.e i) k a j).2.2.2.2.2.1
+  · simp [mneg, ewSemMat_e, Gen.msig_neg, ewVal, ewOpd]
+  · simp [mplus, ewSemMat_e, Gen.fmsig_plus, ewVal, ewOpd, zeroMat]
+  · simp [mminus, ewSemMat_e, Gen.fmsig_minus, ewVal, ewOpd, zeroMat]
+  · simp [mtimes, ewSemMat_e, Gen.fmsig_times, ewVal, ewOpd, zeroMat, mul_comm]
+  · simp [mltimes, ewSemMat_e, Gen.fmsig_ltimes, ewVal, ewOpd, zeroMat]
+
+/-- the results of unary minus and of the FieldMatrix operators have the shape of the operand -/
+theorem mat_ops_shape [Div R] (A B : Mat R) (k : R) :
+    (mneg A).rows = A.rows ∧ (mneg A).cols = A.cols
+    ∧ (mplus A B).rows = A.rows ∧ (mplus A B).cols = A.cols ∧ (mminus A B).rows = A.rows ∧ (mminus A B).cols = A.cols
+    ∧ (mtimes A k).rows = A.rows ∧ (mtimes A k).cols = A.cols ∧ (mltimes k A).rows = A.rows ∧ (mltimes k A).cols = A.cols
+    ∧ (mover A k).rows = A.rows ∧ (mover A k).cols = A.cols := by
+  refine ⟨?_, ?_, ?_, ?_, ?_, ?_, ?_, ?_, ?_, ?_, ?_, ?_⟩ <;>
+    simp [mneg, mplus, mminus, mtimes, mltimes, mover, ewSemMat_shape, zeroMat]
 
 theorem mat_div_spec {F : Type*} [Field F] (A : Mat F) (k : F) (i j : Nat) :
-    (mdiv A k).e i j = (if j < A.cols then A.e i j / k else A.e i j) ∧ (mover A k).e i j = A.e i j / k :=
-  ⟨(vec_div_spec (A.row i) (A.e i) k j).1, rfl⟩
+    (mdiv A k).e i j = (if j < A.cols then A.e i j / k else A.e i j)
+    ∧ (mover A k).e i j = (if i < A.rows ∧ j < A.cols then A.e i j / k else 0) :=
+  ⟨(vec_div_spec (A.row i) (A.e i) k j).1, by simp [mover, ewSemMat_e, Gen.fmsig_over, ewVal, ewOpd, zeroMat]⟩
+
+-- non-vacuity: the nests really write the entries (and only inside the shape)
+example : (List.range 3).map (fun i => (List.range 3).map ((mneg (⟨2, 2, fun i j => 2*i+j+1⟩ : Mat Int)).e i))
+    = [[-1, -2, 3], [-3, -4, 5], [5, 6, 7]] := by decide
+example : (List.range 2).map (fun i => (List.range 3).map ((mminus (⟨2, 2, fun i j => 2*i+j+1⟩ : Mat Int) ⟨2, 2, fun _ _ => 1⟩).e i))
+    = [[0, 1, 0], [2, 3, 0]] := by decide
+example : (List.range 3).map (vscale 2 (fun i => (i : Int) + 1) 3) = [3, 6, 0]
+    ∧ (List.range 3).map (vdiv 2 (fun i => 6 * ((i : Int) + 1)) 3) = [2, 4, 0] := by decide
+
+/-- unary minus takes its operand as input only: whatever kind of object the operand is (an owning matrix / vector or a scalar
+view), its storage afterwards is what it was, and the result has the negated entries.  (Needs `Gen.mnegResult = Gen.vnegResult =
+.autonomous`: with the result declared as `MAT result = asImp()` the "copy" of a scalar view is a second handle and the loop
+negates the viewed scalar.) -/
+theorem neg_operand_unchanged [Div R] (isView : Bool) (b : Mat R) (i j : Nat) :
+    (negObj Gen.mnegResult isView b).2 = b ∧ (negObj Gen.vnegResult isView b).2 = b
+    ∧ (negObj Gen.mnegResult isView b).1.e i j = (if i < b.rows ∧ j < b.cols then - b.e i j else b.e i j)
+    ∧ (negObj Gen.vnegResult isView b).1.e i j = (if i < b.rows ∧ j < b.cols then - b.e i j else b.e i j) := by
+  have h := (mat_ops_spec b b 0 0 i j).2.2.2.2.1
+  refine ⟨?_, ?_, ?_, ?_⟩ <;> simp [negObj, Gen.mnegResult, Gen.vnegResult, h]
+
+example := neg_operand_unchanged (R := Int) true ⟨1, 1, fun _ _ => 3⟩ 0 0
+-- what the previous declaration `MAT result = asImp()` did to a scalar view: the viewed scalar itself was negated
+example : ((negObj .sameType true (⟨1, 1, fun _ _ => 3⟩ : Mat Int)).2.e 0 0, (negObj .autonomous true (⟨1, 1, fun _ _ => 3⟩ : Mat Int)).2.e 0 0)
+    = (-3, 3) := by decide
+
+/-- the in-place products with the matrix as its own argument: `A.leftmultiply(A)` and `A.rightmultiply(A)` (DenseMatrix's and
+FieldMatrix's own overload) leave A·A.  The loop nests accumulate in the copy `C` and read the untouched `*this` and `M`
+(`Gen.inplace_* = .copyBack`, read from the source), so the model's nest with immutable inputs is what the code does also when
+`M` is `*this` -/
+theorem self_mul_spec (A : Mat R) (hsq : A.rows = A.cols) (i j : Nat) (hi : i < A.rows) (hj : j < A.cols) :
+    Gen.inplace_dmLeftmultiply = .copyBack ∧ Gen.inplace_dmRightmultiply = .copyBack ∧ Gen.inplace_fmRightmultiply = .copyBack
+    ∧ (leftmultiply A A).e i j = ∑ k ∈ range A.rows, A.e i k * A.e k j
+    ∧ (rightmultiply A A).e i j = ∑ k ∈ range A.rows, A.e i k * A.e k j
+    ∧ (rightmultiplyFM A A).e i j = ∑ k ∈ range A.rows, A.e i k * A.e k j
+    ∧ (leftmultiply A A).e i j = (matmul A A).e i j := by
+  have hl := leftmul_spec A A i j
+  have hr := rightmul_spec A A i j
+  refine ⟨rfl, rfl, rfl, ?_, ?_, ?_, ?_⟩
+  · rw [hl.1, if_pos ⟨hi, hj⟩]
+  · rw [hr.1, if_pos ⟨hi, hj⟩, hsq]
+  · rw [hr.2.2.2.1, hr.1, if_pos ⟨hi, hj⟩, hsq]
+  · exact hl.2.2.2 rfl hsq.symm hi hj
+
+example := self_mul_spec (R := Int) ⟨2, 2, fun i j => 2*i+j+1⟩ rfl 1 0 (by decide) (by decide)
+example : (List.range 2).map (fun i => (List.range 2).map ((rightmultiply (⟨2, 2, fun i j => 2*i+j+1⟩ : Mat Int) ⟨2, 2, fun i j => 2*i+j+1⟩).e i))
+    = [[7, 10], [15, 22]] := by decide
 
 /-- DiagonalMatrix does its vector-space operations on the diagonal vector; the result is the diagonal matrix whose full
 matrix is what the full matrices give: the diagonal and the full representation are interchangeable for `+=`, `-=`, `*=`
@@ -951,6 +1017,11 @@ def exDecls : List (Decl Int) :=
 example : (seqTrace (fun z : Int => z) (initState exDecls) [.asg 0 1, .scale 0 3, .add 0 1, .fill 2 7, .kern .mv 3 0 1 0]).map
     (fun sts => sts.map fun s => ((s.buf 0).e 0 0, (s.buf 1).e 0 0, (s.buf 2).e 0 0))
     = some [(2, 2, 5), (6, 2, 5), (8, 2, 5), (8, 2, 7), (14, 2, 7)] := by decide
+
+-- non-vacuity (round four): an object as its own argument: `v0 += v0; M.rightmultiply(M); M.leftmultiply(M); v0.axpy(2, v0); v0 = v0`
+example : (seqTrace (fun z : Int => z) (initState exDecls) [.add 0 0, .rmul 2 2, .lmul 2 2, .axpy 0 2 0, .asg 0 0]).map
+    (fun sts => sts.map fun s => ((s.buf 0).e 0 0, (s.buf 1).e 0 0, (s.buf 2).e 0 0))
+    = some [(2, 2, 5), (2, 2, 25), (2, 2, 625), (6, 2, 625), (6, 2, 625)] := by decide
 
 example : declsOk exDecls := by
   intro i d h hk
